@@ -2,6 +2,10 @@
 // Serves C01 C02 C03 C06 C07 C08 C09 C14 C15 C18.
 #include "common.h"
 #include "vocab.h"
+#include "simthreads.h"
+
+#include <hgraph/util/scope.h>
+#include <memory>
 
 #include <hgraph/lib/std/operators/control.h>
 
@@ -202,103 +206,195 @@ namespace hv
         };
     }  // namespace
 
+    namespace
+    {
+        struct Job
+        {
+            Ctx ctx;
+            const Scenario *sc{nullptr};
+            long long start_off{0}, end_off{100};
+            bool cleanup{true};
+            int repeat{1};
+            bool log_ne{true};
+            unsigned long long seed{0};
+            double stall_rate{0};
+            long long stall_max{0};
+            bool coarse{false};
+            std::uint32_t max_imm{0};
+            GraphExecutorBuilder eb;
+            Observer obs;
+            bool wired{false};
+        };
+
+        // parse options + tables, wire the program (single-threaded; uses the wiring-time global g_sc)
+        void prepare(Job &job, const Scenario &sc)
+        {
+            job.sc = &sc;
+            g_sc   = &sc;
+            Ctx *saved = g_ctx;
+            g_ctx      = &job.ctx;
+            auto restore = make_scope_exit([&] noexcept { g_ctx = saved; });
+            for (auto &st : sc.stmts)
+            {
+                const auto &k = st.tok[0];
+                if (k == "window") { job.start_off = std::stoll(st.tok.at(1)); job.end_off = std::stoll(st.tok.at(2)); }
+                else if (k == "fault")
+                {
+                    int ph = st.tok.at(2) == "start" ? PH_START : st.tok.at(2) == "eval" ? PH_EVAL : PH_STOP;
+                    job.ctx.faults.faults.push_back({std::stoll(st.tok.at(1)), ph, std::stoi(st.tok.at(3))});
+                }
+                else if (k == "option")
+                {
+                    if (st.has("cleanup_on_error")) job.cleanup = st.geti("cleanup_on_error") != 0;
+                    if (st.has("repeat")) job.repeat = static_cast<int>(st.geti("repeat"));
+                    if (st.has("log_ne")) job.log_ne = st.geti("log_ne") != 0;
+                    if (st.has("max_immediate")) job.max_imm = static_cast<std::uint32_t>(st.geti("max_immediate"));
+                }
+                else if (k == "script")
+                {   // script <id> off:val,off:val
+                    auto &tab = job.ctx.src_script[std::stoll(st.tok.at(1))];
+                    if (st.tok.size() > 2)
+                        for (auto &e : split(st.tok[2], ','))
+                        {
+                            auto p = split(e, ':');
+                            tab[std::stoll(p.at(0))] = std::stoll(p.at(1));
+                        }
+                }
+                else if (k == "tscript")
+                {   // tscript <id> k:op,op;k:op
+                    parse_timer_script(std::stoll(st.tok.at(1)), st.tok.size() > 2 ? st.tok[2] : "");
+                }
+                else if (k == "seed") job.seed = std::stoull(st.tok.at(1));
+                else if (k == "clock")
+                {
+                    job.stall_rate = std::stod(st.get("stall_rate", "0"));
+                    job.stall_max  = st.geti("stall_us", 0);
+                    job.coarse     = st.geti("coarse", 0) != 0;
+                }
+            }
+            job.obs.log_node_eval = job.log_ne;
+            GraphBuilder gb;
+            try
+            {
+                gb = build_graph<Root>();
+            }
+            catch (const std::exception &e)
+            {
+                Line("wire_error").str("what", e.what()).emit();
+                return;
+            }
+            log_builder(gb);
+            for (auto &st : sc.stmts)
+            {
+                if (st.tok[0] == "gs")
+                {   // gs <key> <int>: seed the builder's GlobalState
+                    gb.global_state().set(st.tok.at(1), Value{Int{std::stoll(st.tok.at(2))}});
+                }
+            }
+            job.eb.graph_builder(std::move(gb)).start_time(at(job.start_off)).end_time(at(job.end_off)).add_lifecycle_observer(&job.obs).cleanup_on_error(job.cleanup);
+            if (job.max_imm) job.eb.max_consecutive_immediate_cycles(job.max_imm);
+            job.wired = true;
+        }
+
+        // make_executor + run (+ release), `repeat` times from the same executor builder
+        void execute(Job &job)
+        {
+            Ctx *saved = g_ctx;
+            g_ctx      = &job.ctx;
+            auto restore = make_scope_exit([&] noexcept { g_ctx = saved; });
+            for (int r = 0; r < job.repeat; ++r)
+            {
+                if (job.repeat > 1) Line("run").i("r", r).emit();
+                reset_vocab_counters();
+                job.obs.gid.clear();
+                job.obs.next_gid = 0;
+                {
+                    auto ex = job.eb.make_executor();
+                    try
+                    {
+                        ex.view().run();
+                        Line("ran").str("run", "ok").emit();
+                    }
+                    catch (const std::exception &e)
+                    {
+                        Line("ran").str("run", "threw").str("what", e.what()).emit();
+                    }
+                    dump_global_state(ex.view().graph().global_state());
+                    Line("release").emit();
+                }
+                Line("released").emit();
+            }
+        }
+    }  // namespace
+
     int run_dataflow(const Scenario &sc)
     {
-        g_sc = &sc;
-        long long start_off = 0, end_off = 100;
-        bool cleanup = true;
-        int repeat = 1;
-        bool log_ne = true;
-        unsigned long long seed = 0;
-        double stall_rate = 0;
-        long long stall_max = 0;
-        bool coarse = false;
-        std::uint32_t max_imm = 0;
-        for (auto &st : sc.stmts)
+        Job job;
+        prepare(job, sc);
+        if (!job.wired)
         {
-            const auto &k = st.tok[0];
-            if (k == "window") { start_off = std::stoll(st.tok.at(1)); end_off = std::stoll(st.tok.at(2)); }
-            else if (k == "fault")
-            {
-                int ph = st.tok.at(2) == "start" ? PH_START : st.tok.at(2) == "eval" ? PH_EVAL : PH_STOP;
-                g_faults.faults.push_back({std::stoll(st.tok.at(1)), ph, std::stoi(st.tok.at(3))});
-            }
-            else if (k == "option")
-            {
-                if (st.has("cleanup_on_error")) cleanup = st.geti("cleanup_on_error") != 0;
-                if (st.has("repeat")) repeat = static_cast<int>(st.geti("repeat"));
-                if (st.has("log_ne")) log_ne = st.geti("log_ne") != 0;
-                if (st.has("max_immediate")) max_imm = static_cast<std::uint32_t>(st.geti("max_immediate"));
-            }
-            else if (k == "script")
-            {   // script <id> off:val,off:val
-                auto &tab = g_src_script[std::stoll(st.tok.at(1))];
-                if (st.tok.size() > 2)
-                    for (auto &e : split(st.tok[2], ','))
-                    {
-                        auto p = split(e, ':');
-                        tab[std::stoll(p.at(0))] = std::stoll(p.at(1));
-                    }
-            }
-            else if (k == "tscript")
-            {   // tscript <id> k:op,op;k:op
-                parse_timer_script(std::stoll(st.tok.at(1)), st.tok.size() > 2 ? st.tok[2] : "");
-            }
-            else if (k == "seed") seed = std::stoull(st.tok.at(1));
-            else if (k == "clock")
-            {
-                stall_rate = std::stod(st.get("stall_rate", "0"));
-                stall_max  = st.geti("stall_us", 0);
-                coarse     = st.geti("coarse", 0) != 0;
-            }
-        }
-        clock_fault_config(seed, stall_rate, stall_max, coarse);
-
-        Observer obs;
-        obs.log_node_eval = log_ne;
-        GraphBuilder gb;
-        try
-        {
-            gb = build_graph<Root>();
-        }
-        catch (const std::exception &e)
-        {
-            Line("wire_error").str("what", e.what()).emit();
             Line("end").str("run", "wire_error").emit();
             return 0;
         }
-        log_builder(gb);
-        for (auto &st : sc.stmts)
+        clock_fault_config(job.seed, job.stall_rate, job.stall_max, job.coarse);
+        execute(job);
+        Line("end").str("run", "done").i("faults_fired", job.ctx.faults.fired).i("clock_faults", clock_faults_fired()).emit();
+        return 0;
+    }
+
+    // mode concurrent: sections "=== <n>" each holding a dataflow scenario. Every section is wired, then run alone
+    // (reference trace, log tag x=n, between {"k":"phase","p":"solo"} markers), then all are run again at the same
+    // time on simulated threads (make_executor + run + release concurrent; pre-emption at every intercepted mutex
+    // operation and at every node evaluation).
+    int run_concurrent(const Scenario &all)
+    {
+        std::vector<std::string> texts;
+        unsigned long long seed = 1;
+        int solo = 1;
         {
-            if (st.tok[0] == "gs")
-            {   // gs <key> <int>: seed the builder's GlobalState
-                gb.global_state().set(st.tok.at(1), Value{Int{std::stoll(st.tok.at(2))}});
-            }
-        }
-        GraphExecutorBuilder eb;
-        eb.graph_builder(std::move(gb)).start_time(at(start_off)).end_time(at(end_off)).add_lifecycle_observer(&obs).cleanup_on_error(cleanup);
-        if (max_imm) eb.max_consecutive_immediate_cycles(max_imm);
-        for (int r = 0; r < repeat; ++r)
-        {
-            if (repeat > 1) Line("run").i("r", r).emit();
-            reset_vocab_counters();
+            std::istringstream in(all.text);
+            std::string line;
+            while (std::getline(in, line))
             {
-                auto ex = eb.make_executor();
-                try
-                {
-                    ex.view().run();
-                    Line("ran").str("run", "ok").emit();
-                }
-                catch (const std::exception &e)
-                {
-                    Line("ran").str("run", "threw").str("what", e.what()).emit();
-                }
-                dump_global_state(ex.view().graph().global_state());
-                Line("release").emit();
+                if (line.rfind("===", 0) == 0) { texts.emplace_back(); continue; }
+                if (line.rfind("simseed ", 0) == 0) { seed = std::stoull(line.substr(8)); continue; }
+                if (line.rfind("solo ", 0) == 0) { solo = std::stoi(line.substr(5)); continue; }
+                if (!texts.empty()) { texts.back() += line; texts.back() += "\n"; }
             }
-            Line("released").emit();
         }
-        Line("end").str("run", "done").i("faults_fired", g_faults.fired).i("clock_faults", clock_faults_fired()).emit();
+        std::vector<Scenario> scs;
+        for (auto &t : texts) scs.push_back(parse_scenario(t));
+        std::vector<std::unique_ptr<Job>> jobs;
+        for (size_t i = 0; i < scs.size(); ++i)
+        {
+            jobs.push_back(std::make_unique<Job>());
+            jobs.back()->ctx.exec = static_cast<int>(i);
+            g_ctx = &jobs.back()->ctx;
+            prepare(*jobs.back(), scs[i]);
+            g_ctx = &g_default_ctx;
+            if (!jobs.back()->wired) { Line("end").str("run", "wire_error").emit(); return 0; }
+        }
+        clock_fault_config(seed, 0, 0, false);
+        if (solo)
+        {
+            Line("phase").str("p", "solo").emit();
+            for (auto &j : jobs) execute(*j);
+        }
+        Line("phase").str("p", "concurrent").emit();
+        sim::Config cfg;
+        cfg.seed = seed;
+        sim::configure(cfg);
+        sim::set_log(false);
+        for (auto &j : jobs)
+        {
+            Job *job = j.get();
+            job->obs.yield_hook = [] { sim::yield(); };
+            sim::spawn("exec", [job] { execute(*job); });
+        }
+        sim::run_all();
+        g_ctx = &g_default_ctx;
+        Line("end").str("run", "done").i("steps", sim::stats().steps).i("preemptions", sim::stats().preemptions).i("mutex_blocks", sim::stats().mutex_blocks)
+            .str("trace_hash", std::to_string(sim::trace_hash())).emit();
         return 0;
     }
 }  // namespace hv
